@@ -13,7 +13,7 @@ from ..common import rng_for, b2j
 
 LEVEL = "exploration"
 SHARDS = {"quick": 1, "thorough": 16}
-REQUIRED = ("pattern_packet_comparisons", "embedded_class_comparisons", "same_name_class_pairs", "auto_described_pairs", "equal_pairs", "unequal_pairs", "reprs", "pairs_with_move_fields", "pairs_with_em", "pairs_with_described",
+REQUIRED = ("in_place_changes_of_default_packets", "in_place_changes_of_default_packets_nested", "pattern_packet_comparisons", "embedded_class_comparisons", "same_name_class_pairs", "auto_described_pairs", "equal_pairs", "unequal_pairs", "reprs", "pairs_with_move_fields", "pairs_with_em", "pairs_with_described",
             "pairs_after_pack", "different_class_pairs", "nested_leaf_changes", "parsed_vs_constructed", "non_packet_comparisons")
 MIN_NONTRIVIAL = 150
 RULE = {
@@ -246,6 +246,35 @@ def one_tree(run, bench, rng, raw, pv, feats):
             n += 1
             if n >= 4:
                 break
+        # two default-built packets, one of them changed IN PLACE at some depth (sub-objects of default packets must be private)
+        try:
+            from .c13 import pick_leaf, new_leaf_value
+            d0 = model.defaults(fam, fam["root"])
+            for _try in range(3):
+                leaf = pick_leaf(fam, d0, rng)
+                if not leaf:
+                    break
+                path, lf = leaf
+                if "describe" in lf or any(g.get("describe", {}).get("of") == lf["name"] for g in fam["decls"][fam["root"]]["fields"]) and len(path) == 1:
+                    continue
+                p_, q_ = cls(), cls()
+                obj, cur = q_, d0
+                for name in path[:-1]:
+                    obj = getattr(obj, name)
+                    cur = cur.vals[name]
+                val = new_leaf_value(lf, rng)
+                if cur.vals.get(path[-1]) == val:
+                    continue
+                setattr(obj, path[-1], val)
+                run.count("in_place_changes_of_default_packets")
+                if len(path) > 1:
+                    run.count("in_place_changes_of_default_packets_nested")
+                if not expect(run, bench, "default-built, one leaf changed in place", p_, q_, False,
+                              dict(w, changed_in_place=path, new_value=b2j(val) if isinstance(val, bytes) else val)):
+                    return
+                break
+        except harness.CaseTimeout:
+            pass
         # non packets
         for other in (None, 5, b"x", "s", [], object()):
             run.count("non_packet_comparisons")
@@ -364,7 +393,7 @@ def run(run):
         run.count("embedded_class_comparisons")
     side_dir = common.scratch_dir("bvf_c20b_")
     nfam = 450 if run.tier == "quick" else 2000
-    profile = {"p_move": 0.35, "p_class_align": 0.15, "p_describe": 0.25, "allow_regex_nokeep_single": False,
+    profile = {"p_local_classes": 0.4, "p_instance_proto": 0.5, "p_move": 0.35, "p_class_align": 0.15, "p_describe": 0.25, "allow_regex_nokeep_single": False,
                "kinds": {"int": 34, "data": 22, "bits": 8, "ref": 16, "sel": 8, "em": 8}, "p_backward_at": 0.05}
     if run.tier == "thorough":
         profile["max_depth"] = 4
